@@ -667,6 +667,29 @@ neu('N21-mvdr-hermitian-in-place-on-the-ufunc-result', ALLP, [(BF, "    noise_ps
     note='np.conj (the ufunc) always allocates: the in-place steps work on an own array (C11 may not read the formula any more)')
 mut('C20-mvdr-hermitian-in-place-on-the-method-result', 'C20', BF, "    noise_psd_matrix = 0.5 * (\n        noise_psd_matrix + np.conj(noise_psd_matrix.swapaxes(-1, -2))\n    )\n",
     "    hermitian = noise_psd_matrix.swapaxes(-1, -2).conj()\n    hermitian += noise_psd_matrix\n    hermitian *= 0.5\n    noise_psd_matrix = hermitian\n", expect='noise_psd_matrix', props=['C20'])
+# ---- tenth pass (eleventh campaign: block-wise / in-place rewrites that are correct, and their broken twins)
+CW = D + 'cwmm.py'
+PRED = "        y = y / np.maximum(\n            np.linalg.norm(y, axis=-1, keepdims=True), np.finfo(y.dtype).tiny\n        )\n        return self._predict(y)"
+neu('N22-cwmm-predict-normalised-blockwise-in-place', ALLP, [(CW, PRED,
+    "        tiny = np.finfo(y.dtype).tiny\n        y = np.array(y, copy=True)\n        n = y.shape[-2]\n        for start in range(0, n, 512):\n            stop = min(start + 512, n)\n"
+    "            block = y[..., start:stop, :]\n            block /= np.maximum(np.linalg.norm(block, axis=-1, keepdims=True), tiny)\n        return self._predict(y)", False)])
+mut('C04-cwmm-predict-normalised-blockwise-last-block-skipped', 'C04', CW, PRED,
+    "        tiny = np.finfo(y.dtype).tiny\n        y = np.array(y, copy=True)\n        n = y.shape[-2]\n        for start in range(0, n - 511, 512):\n            stop = start + 512\n"
+    "            block = y[..., start:stop, :]\n            block /= np.maximum(np.linalg.norm(block, axis=-1, keepdims=True), tiny)\n        return self._predict(y)", expect=None, props=['C04'],
+    note='range(0, n - 511, 512): the frames behind the last full block keep their gain')
+neu('N22-cwmm-predict-normalised-piecewise-array-split', ALLP, [(CW, PRED,
+    "        tiny = np.finfo(y.dtype).tiny\n        y = np.array(y, copy=True)\n        for block in np.array_split(y, max(1, -(-y.shape[-2] // 512)), axis=-2):\n"
+    "            block /= np.maximum(np.linalg.norm(block, axis=-1, keepdims=True), tiny)\n        return self._predict(y)", False)])
+neu('N22-cwmm-predict-norm-as-self-inner-product', ALLP, [(CW, PRED,
+    "        norm = np.sqrt(np.einsum('...d,...d->...', y, y.conj()).real[..., None])\n        np.maximum(norm, np.finfo(y.dtype).tiny, out=norm)\n        y = y / norm\n        return self._predict(y)", False)])
+VM = D + 'vmfmm.py'
+INIT = "            initialization \\\n                /= np.einsum(\"...kn->...n\", initialization)[..., None, :]\n"
+neu('N22-vmfmm-random-start-class-sum-as-a-loop', ALLP, [(VM, INIT,
+    "            total = np.zeros((*independent, num_observations))\n            for k in range(num_classes):\n                total += initialization[..., k, :]\n            initialization /= total[..., None, :]\n", False)])
+mut('C01-vmfmm-random-start-sum-over-the-frames-as-a-loop', 'C01', VM, INIT,
+    "            total = np.zeros((*independent, num_classes))\n            for n in range(num_observations):\n                total += initialization[..., :, n]\n            initialization /= total[..., :, None]\n",
+    expect=None, props=['C01', 'C09'], note='the loop sums over the observations: every class row is normalised, not every observation column')
+neu('N22-vmfmm-random-start-ufunc-reduce', ALLP, [(VM, INIT, "            initialization /= np.add.reduce(initialization, axis=-2, keepdims=True)\n", False)])
 # ---- whole refactorings written by independent sub-agents (14-20 behaviour-preserving edits each, verified bit-identical on
 #      600-900 inputs per patch): every check must stay silent on each of them
 for r, what in (('R1', 'mixture_model_utils / cacgmm / cACG'), ('R2', 'cwmm / cbmm / Watson / Bingham / distribution.utils'), ('R3', 'gmm / gaussian / vMF / gcacgmm / vmfcacgmm'),
@@ -721,6 +744,16 @@ for r, what in (('R101', 'mixture_model_utils / cacgmm / cACG'), ('R102', 'cwmm 
     undecided = {'R101': ['C08', 'C14'], 'R102': ['C01', 'C09'], 'R103': ['C01', 'C02', 'C03', 'C04', 'C05', 'C07', 'C08', 'C09'], 'R104': ['C10', 'C12', 'C13'],
                  'R106': ['C18', 'C19']}.get(r, [])
     C.append(dict(id=f'N20-{r}-axes', kind='neutral', properties=ALLP, note=f'independent rewrite of the axis handling of {what}', patch=f'neutral_patches/{r}.patch', edits=[],
+                  inconclusive_ok=undecided))
+# ---- eleventh campaign: correct memory / BLAS rewrites - reductions, contractions and normalisations done block by block into own buffers (last partial block handled), stacks of
+#      matrices decomposed blockwise, einsum <-> matmul / broadcast products, in-place arithmetic on own arrays only, ufunc.reduce, np.take / np.compress with explicit axes
+for r, what in (('R111', 'mixture_model_utils / cacgmm / cACG'), ('R112', 'cwmm / cbmm / Watson / Bingham / distribution.utils'), ('R113', 'gmm / gaussian / vMF / gcacgmm / vmfcacgmm'),
+                ('R114', 'beamformer / beamformer_wrapper / math.solve'), ('R115', 'permutation_alignment / initializers'), ('R116', 'mask_module / sxr_module / si_sdr / utils')):
+    # checks that end INCONCLUSIVE (exit 2, no VIOLATION line): a value accumulated / assembled over blocks of an axis is not followed as a value (the term graph carries one
+    # iteration), so the formula anchors inside such loops are undecided (DESIGN 10.5, eleventh campaign)
+    undecided = {'R111': ['C01', 'C02', 'C06', 'C08', 'C09'], 'R112': ['C03', 'C07', 'C08', 'C09'], 'R113': ['C02', 'C03', 'C07', 'C08', 'C09'], 'R114': ['C10', 'C11', 'C12', 'C13'],
+                 'R115': ['C01', 'C09', 'C14', 'C15', 'C16'], 'R116': ['C18', 'C19']}.get(r, [])
+    C.append(dict(id=f'N22-{r}-blocks', kind='neutral', properties=ALLP, note=f'independent block-wise / in-place rewrite of {what}', patch=f'neutral_patches/{r}.patch', edits=[],
                   inconclusive_ok=undecided))
 out.write_text(json.dumps(C, indent=1))
 print(len(C), 'variants ->', out)
